@@ -12,13 +12,13 @@ pub fn serialize_resp_frame<W: Write>(frame: &RespFrame, writer: &mut W) -> Resu
     match frame {
         RespFrame::SimpleString(bytes) => {
             writer.write_all(b"+")?;
-            writer.write_all(bytes)?;
+            write_line_safe(bytes, writer)?;
             writer.write_all(b"\r\n")?;
         }
         
         RespFrame::Error(bytes) => {
             writer.write_all(b"-")?;
-            writer.write_all(bytes)?;
+            write_line_safe(bytes, writer)?;
             writer.write_all(b"\r\n")?;
         }
         
@@ -105,6 +105,18 @@ pub fn serialize_resp_frame<W: Write>(frame: &RespFrame, writer: &mut W) -> Resu
         }
     }
     
+    Ok(())
+}
+
+/// Write the text of a simple string or error: these are single lines, so CR and LF
+/// (which may come from request content quoted in a message) are written as spaces
+fn write_line_safe<W: Write>(bytes: &[u8], writer: &mut W) -> Result<()> {
+    if bytes.iter().any(|&b| b == b'\r' || b == b'\n') {
+        let cleaned: Vec<u8> = bytes.iter().map(|&b| if b == b'\r' || b == b'\n' { b' ' } else { b }).collect();
+        writer.write_all(&cleaned)?;
+    } else {
+        writer.write_all(bytes)?;
+    }
     Ok(())
 }
 
